@@ -251,7 +251,6 @@ impl Check for Handshake {
         let mut m = Model { holder: Some(0), pending: None, past_deadlines: vec![], now: cfg.start_ledger };
         // history for probes: (account, deadline, how it ended)
         let mut longest_earlier: u32 = 0;
-        let mut prev = ("", false);
         for (i, s) in steps.iter().enumerate() {
             let before = w.storage_digest(&[&id]);
             let holder_before = m.holder;
@@ -347,9 +346,7 @@ impl Check for Handshake {
                 }
             }
             if kind != "advance" {
-                st.hit(if got { "tx.ok" } else { "tx.refused" });
-                st.gram(&(prev, kind, got));
-                prev = (kind, got);
+                st.tx(kind, got);
             }
             if got != exp {
                 let check = match (kind, got) {
